@@ -79,14 +79,17 @@ def native_replay(repo_copy, test_name, features=None, timeout=900):
     return {'cmd': ' '.join(cmd), 'result': 'reproduced natively (test failed)' if 'FAILED' in out else 'not reproduced', 'output': '\n'.join(lines[:20])}
 
 
-def run_for_property(prop, scratch_dir, include_slow, only=None):
+def run_for_property(prop, scratch_dir, include_slow, only=None, lazy_slow=False):
     hs = harnesses()
     sel = [(n, i) for n, i in hs.items() if prop in i['props'] and (include_slow or not i.get('slow')) and (only is None or n in only)]
     if not sel:
         return []
     rc = prepare(scratch_dir)
     results = []
+    sel.sort(key=lambda x: bool(x[1].get('slow')))
     for n, i in sel:
+        if lazy_slow and i.get('slow') and any(r['status'] == 'failed' for r in results):
+            continue  # fallback mode: a counterexample is already in hand, the slow harnesses add nothing
         r = run_harness(rc, n, i)
         r.update(kind=i['kind'], what=i['what'], props=i['props'])
         if r['status'] == 'failed':
